@@ -131,6 +131,7 @@ pub fn build_universe_with(
             // fixed cases always use `extend type` blocks (carrying `implements`) where the schema has extension fields
             use_extend: from_corpus || rng.chance(30),
             extend_implements: from_corpus || rng.chance(50),
+            extensions_first: rng.chance(40),
             sdl_builtin_scalars: rng.chance(15),
             input_defaults: rng.chance(30),
             ..RenderKnobs::default()
